@@ -159,6 +159,54 @@ def all_valid_config(rng, sections):
     return cfg
 
 
+# documented values that differ from the defaults: a section built from these changes the plan (and, for writer,
+# filter and reader sections, usually the bytes) if it is used although it should not be, or ignored although it should be
+NONDEFAULT = {
+    ("general", "log_level"): ["WARN", "ERROR"], ("general", "progress_bar"): [False],
+    ("general", "document_lang"): ["es-419", "fr-CA", "zh-Hant-TW", "de"],
+    ("imsc_writer", "time_format"): ["clock_time_with_frames", "frames"], ("imsc_writer", "fps"): ["25/1", "30000/1001", "30/1"],
+    ("scc_reader", "text_align"): ["left", "center", "right"],
+    ("stl_reader", "disable_fill_line_gap"): [True], ("stl_reader", "disable_line_padding"): [True],
+    ("stl_reader", "program_start_tc"): ["00:00:01:00", "TCP"], ("stl_reader", "font_stack"): ["Arial", "monospace", '"Some Font", default'],
+    ("stl_reader", "max_row_count"): [11, 99, "MNR"],
+    ("srt_writer", "text_formatting"): [False],
+    ("vtt_writer", "line_position"): [True], ("vtt_writer", "text_align"): [True], ("vtt_writer", "cue_id"): [False],
+    ("lcd", "safe_area"): [0, 5, 29, 30], ("lcd", "preserve_text_align"): [True],
+    ("lcd", "color"): ["red", "#00FF00", "rgb(1,2,3)"], ("lcd", "bg_color"): ["blue", "#FF0000", "rgba(255,255,0,128)"],
+}
+
+
+def nondefault_section(rng, sec):
+    keys = [k for (s, k) in NONDEFAULT if s == sec]
+    chosen = [k for k in keys if rng.random() < .8] or [rng.choice(keys)]
+    if sec == "imsc_writer": chosen = keys          # frames need an fps
+    return {k: rng.choice(NONDEFAULT[(sec, k)]) for k in chosen}
+
+
+def split_configs(rng, relevant):
+    """(inline, file, inline-only sections, file-only sections, shared sections): the two configurations have DIFFERENT
+    section sets over the sections that matter for this command line; shared sections carry different values;
+    at least one relevant section is inline-only (must be ignored) and, when possible, one is file-only (must be used)"""
+    rel = list(relevant); rng.shuffle(rel)
+    place = {sec: rng.choice(["inline", "file", "both"]) for sec in rel}
+    place[rel[0]] = "inline"
+    if len(rel) > 1: place[rel[1]] = rng.choice(["file", "both"])
+    inline, filec = {}, {}
+    for sec in relevant:
+        if place[sec] == "inline": inline[sec] = nondefault_section(rng, sec)
+        elif place[sec] == "file": filec[sec] = nondefault_section(rng, sec)
+        else:
+            a = nondefault_section(rng, sec); b = nondefault_section(rng, sec)
+            for _ in range(5):
+                if a != b: break
+                b = {k: rng.choice(VALID[(sec, k)]) for k in b}
+            if a == b: b = {}
+            inline[sec] = a; filec[sec] = b
+    if rng.random() < .2: inline["no_such_section"] = {"a": 1}
+    return inline, filec, [s_ for s_ in relevant if place[s_] == "inline"], [s_ for s_ in relevant if place[s_] == "file"], \
+        [s_ for s_ in relevant if place[s_] == "both"]
+
+
 def type_variant(rng, fmt):
     """(file extension to use, --?type argument or None) so that the type resolves to fmt"""
     case = lambda s: rng.choice([s, s.upper(), s.capitalize(), "".join(rng.choice([c, c.upper()]) for c in s)])
@@ -214,10 +262,14 @@ def gen_cases(rng, n, docs):
         elif kind < .97:
             mk = all_valid_config if rng.random() < .35 else gen_config
             r = rng.random()
-            if r < .4: c["inline"] = json.dumps(mk(rng, sections))
-            elif r < .7: c["file"] = ("text", json.dumps(mk(rng, sections)))
-            else:                                           # both: the file must win
+            if r < .33: c["inline"] = json.dumps(mk(rng, sections))
+            elif r < .58: c["file"] = ("text", json.dumps(mk(rng, sections)))
+            elif r < .68:                                   # both, same section sets: the file must win
                 c["inline"] = json.dumps(mk(rng, sections)); c["file"] = ("text", json.dumps(mk(rng, sections)))
+            else:                                           # both, different section sets: nothing of the inline one may be used
+                relevant = ["general"] + ([SECTION_OF[fin]] if fin in SECTION_OF else []) + [WSECTION_OF[fout]] + (["lcd"] if "lcd" in c["filters"] else [])
+                inl, fil, c["inline_only"], c["file_only"], c["shared"] = split_configs(rng, relevant)
+                c["inline"] = json.dumps(inl); c["file"] = ("text", json.dumps(fil))
         cases.append(c)
     return cases
 
@@ -757,6 +809,21 @@ def body(run, proofs_ok, root, n_cases, n_probes, n_paths, quick):
         if rc != 0 or data != cases[i]["out"]:
             det_bad.append(dict(case=describe(cases[i]), variant=name, settings=v, argv=job[1], rc=rc, stderr=err[-200:],
                                 same_bytes=(data == cases[i]["out"])))
+    # precedence at the level of bytes: with a configuration file, dropping a (well-formed) --config changes nothing
+    pjobs = []; pmeta = []
+    for i, c in enumerate(cases):
+        if c["sub"] == "convert" and c["file"] is not None and c["inline"] is not None and c["inl"].startswith("(IGiven"):
+            c2 = dict(c); c2["inline"] = None; c2["output"] = os.path.dirname(c["output"]) + "/p-" + os.path.basename(c["output"])
+            pjobs.append((c["dir"], argv_of(c2), 0, c2["output"])); pmeta.append(i)
+    if not quick: pjobs, pmeta = pjobs[:600], pmeta[:600]
+    with ThreadPoolExecutor(C.NCPU) as ex:
+        pres = list(ex.map(run_cli, pjobs))
+    prec_bad = []
+    for i, (rc, cls, data, err), job in zip(pmeta, pres, pjobs):
+        if (rc == 0) != (cases[i]["rc"] == 0) or cls != cases[i]["cls"] or data != cases[i]["out"]:
+            prec_bad.append(dict(case=describe(cases[i]), without_inline=job[1], rc_with=cases[i]["rc"], rc_without=rc, class_with=cases[i]["cls"],
+                                 class_without=cls, same_bytes=(data == cases[i]["out"])))
+    run.log(f"precedence: {len(pjobs)} command lines re-run without their --config; differences {len(prec_bad)}")
     # histories: k conversions (some failing) in random order inside one interpreter, outputs vs the fresh-process bytes
     n_hist = 8 if quick else 80
     hjobs = []; hmeta = []
@@ -809,6 +876,10 @@ def body(run, proofs_ok, root, n_cases, n_probes, n_paths, quick):
     for b in det_bad[:5]:
         s_found = True
         run.violation(f"output depends on {b['variant']}: {b['argv']}", dict(kind="determinism", **b))
+    for b in prec_bad[:5]:
+        s_found = True
+        run.violation(f"the inline configuration is not fully overridden by the configuration file: {b['case']['argv']} differs from the same command without --config",
+                      dict(kind="precedence", **b))
     for b in hist_bad[:5]:
         s_found = True
         run.violation(f"output depends on earlier conversions in the same interpreter (position {b['position']})", dict(kind="history", **b))
@@ -859,9 +930,10 @@ def body(run, proofs_ok, root, n_cases, n_probes, n_paths, quick):
     for c, o in zip(cases, obs):
         if o["kind"] == "plan": pairs[f"{o['reader'][0]}->{o['writer'][0]}"] = pairs.get(f"{o['reader'][0]}->{o['writer'][0]}", 0) + 1
     distinct = len({(json.dumps(o, sort_keys=True, default=str), c["doc"]) for c, o in zip(cases, obs) if o["kind"] == "plan" and c["cmp"] == 1})
-    run.cov["obligations"] += 4; run.cov["discharged"] += 4 - bool(m_bad["cli"] or s_bad["cli"]) - bool(m_bad["probe"] or s_bad["probe"]) - bool(m_bad["type"] or s_bad["type"]) - bool(det_bad or hist_bad)
+    run.cov["obligations"] += 4; run.cov["discharged"] += 4 - bool(m_bad["cli"] or s_bad["cli"]) - bool(m_bad["probe"] or s_bad["probe"]) - bool(m_bad["type"] or s_bad["type"]) - bool(det_bad or hist_bad or prec_bad)
     run.cov.update(
-        evaluations=len(cases) * 4 + len(probes) * 2 + len(paths) * 2 + len(djobs) + hist_n,
+        evaluations=len(cases) * 4 + len(probes) * 2 + len(paths) * 2 + len(djobs) + hist_n + len(pjobs),
+        precedence_reruns=len(pjobs),
         distinct_nontrivial=distinct,
         rule="command lines: each is run as a fresh process, observed through the instrumented tt.main, executed through the library API and "
              "judged by M (plan equality) and S (spec_case) inside Coq; distinct_nontrivial = distinct (observed plan, input document) pairs "
@@ -872,6 +944,10 @@ def body(run, proofs_ok, root, n_cases, n_probes, n_paths, quick):
         bytes_equal=sum(1 for c in cases if c["cmp"] == 1 and c["out"] is not None), library_raised=sum(1 for i in lib if lib[i][0] == "raise"),
         with_inline=sum(1 for c in cases if c["inline"] is not None), with_file=sum(1 for c in cases if c["file"] is not None),
         with_both=sum(1 for c in cases if c["inline"] is not None and c["file"] is not None),
+        both_with_inline_only_section=sum(1 for c in cases if c.get("inline_only")),
+        both_with_inline_only_section_bytes_compared=sum(1 for c in cases if c.get("inline_only") and c["cmp"] == 1),
+        both_inline_only_histogram={k: sum(1 for c in cases if k in (c.get("inline_only") or [])) for k in ("general", "scc_reader", "stl_reader", "lcd", "imsc_writer", "srt_writer", "vtt_writer")},
+        both_with_file_only_section=sum(1 for c in cases if c.get("file_only")), both_with_shared_section=sum(1 for c in cases if c.get("shared")),
         with_filters=sum(1 for c in cases if c["filters"]), probes=len(probes), probe_excused=len(excused["probe"]), paths=len(paths),
         determinism_reruns=len(djobs), history_conversions=hist_n, history_interpreters=n_hist,
         findings_fired={k: len(v) for k, v in fired.items()},
